@@ -356,7 +356,7 @@ class ECPubKey:
         # Verify that r and s are within the group order
         if r < 1 or s < 1 or r >= SECP256K1_ORDER or s >= SECP256K1_ORDER:
             return False
-        if low_s and s >= SECP256K1_ORDER_HALF:
+        if low_s and s > SECP256K1_ORDER_HALF:
             return False
         z = int.from_bytes(msg, "big")
 
